@@ -229,6 +229,23 @@ def d4(chk, prog, ploidies):
             t = T(got)
             tb3.cell(same(got, want) and t.integer and t.lo >= 0, dict(ploidy=P, hap=hap, naming=style or "bare", purity=pur, layout=layout, row=i, cls=c, cn=repr(got), want=repr(want)))
     tb3.done("pure clonal call is not the nearest integer to r*2^log2")
+    # (d) within one process: a call's result does not depend on the calls made before it (one interpreter, ploidy / reference sex changing between calls)
+    tb4 = Table(chk, "cn-integer-nonneg", "do_call(clonal, no purity) called repeatedly in one process (ploidy 2, 4, 2 with a male reference, 3, 2): each call == round(r*2^v) for its own arguments", fi.loc(), fi.qn + "::cn (pure, repeated calls)")
+    W.reset()
+    it = Interp(prog, model)
+    for step, (P, hap) in enumerate([(2, False), (4, False), (2, True), (3, False), (2, False)]):
+        cl = ["auto", "x", "y"]
+        rows = [{"chromosome": chrom(c, "chr"), "start": Term.sym("s"), "end": Term.sym("e"), "gene": "g", "log2": Term.sym(f"v_{c}_{i}")} for i, c in enumerate(cl)]
+        g = make_ga("CopyNumArray", rows, {"_classes": cl, "sample_id": "S"}, index="any")
+        out = tb4.guard(lambda: it.run(fi.qn, [g, None, "clonal", P, None, hap, False, None, None]), f"call {step + 1}: P={P}")
+        if out is None:
+            continue
+        for i, c in enumerate(cl):
+            r = ref_exp_oracle(c, P, hap, True, None)[0]
+            want = f_round(t_mul(T(r), f_exp2(Term.sym(f"v_{c}_{i}"))))
+            got = out.data.cols["cn"].v[i]
+            tb4.cell(same(got, want), dict(call=step + 1, ploidy=P, hap=hap, cls=c, cn=repr(got), want=repr(want)))
+    tb4.done("a pure clonal call depends on the calls made before it in the same process (state kept between calls)")
 
 
 def d5(chk, prog):
